@@ -61,6 +61,8 @@ type Server struct {
 	StartTime   time.Duration
 	ReplMon     bool
 	ReplMonTS   float64
+	FailRO      uint16 // SET read_only/super_read_only statements fail with this MySQL error number
+	FailSSQuery bool   // the semi-sync status query fails (connection-level error)
 	StmtCount   int
 	MutCount    int
 	LastMutProc string
@@ -82,6 +84,9 @@ type Session struct {
 	Alive   bool
 	Long    bool  // runs a long statement that blocks SET read_only until killed
 	Waiting *GTID // commit waiting for a semi-sync ACK
+	// Excluded: the session's user is in mysync's exclude_users list (not SUPER): invisible to
+	// the process-list query, hence never KILLed, but cut by offline_mode = ON
+	Excluded bool
 }
 
 type TxnStatus int
@@ -221,7 +226,10 @@ func (s *Server) Accepts(w *World) bool {
 }
 
 // Write is one client commit attempt on host h.
-func (w *World) Write(h string) *Txn {
+func (w *World) Write(h string) *Txn { return w.WriteAs(h, false) }
+
+// WriteAs is Write by an ordinary user or by a user listed in exclude_users.
+func (w *World) WriteAs(h string, excluded bool) *Txn {
 	s := w.Servers[h]
 	t := &Txn{Host: h, At: w.Now()}
 	if s == nil || !s.Accepts(w) {
@@ -246,7 +254,7 @@ func (w *World) Write(h string) *Txn {
 	}
 	s.nextSess++
 	id := t.ID
-	s.Sessions = append(s.Sessions, &Session{ID: 100 + s.nextSess, Alive: true, Waiting: &id})
+	s.Sessions = append(s.Sessions, &Session{ID: 100 + s.nextSess, Alive: true, Waiting: &id, Excluded: excluded})
 	w.SettleAcks(s)
 	return t
 }
@@ -548,6 +556,9 @@ func (s *Server) Exec(w *World, c *Call) (rows *RowSet, err error, block bool) {
 	case qIsRO:
 		return one([]string{"ReadOnly", "SuperReadOnly"}, b2i(s.ReadOnly), b2i(s.SuperRO)), nil, false
 	case qSetRO, qSetRONoSup:
+		if s.FailRO != 0 {
+			return nil, mysqlErr(s.FailRO, "injected failure of SET read_only"), false
+		}
 		if s.blocksReadOnly() {
 			return nil, nil, true
 		}
@@ -562,6 +573,9 @@ func (s *Server) Exec(w *World, c *Call) (rows *RowSet, err error, block bool) {
 	case qLockTO:
 		return nil, nil, false
 	case qSSStatus:
+		if s.FailSSQuery {
+			return nil, fmt.Errorf("injected: semi-sync status query failed"), false
+		}
 		if !s.PluginLoaded {
 			return nil, mysqlErr(1193, "Unknown system variable 'rpl_semi_sync_master_enabled'"), false
 		}
@@ -725,7 +739,7 @@ func (s *Server) Exec(w *World, c *Call) (rows *RowSet, err error, block bool) {
 	if reProcList.MatchString(q) {
 		rs := &RowSet{Cols: []string{"ID"}}
 		for _, se := range s.Sessions {
-			if se.Alive {
+			if se.Alive && !se.Excluded {
 				rs.Rows = append(rs.Rows, []driver.Value{int64(se.ID)})
 			}
 		}
@@ -841,3 +855,6 @@ func (s *Server) Dump(w *World) string {
 	}
 	return b.String()
 }
+
+// BlocksReadOnly reports whether a SET read_only statement would block now.
+func (s *Server) BlocksReadOnly() bool { return s.blocksReadOnly() }
